@@ -1,4 +1,5 @@
 import DdsProofs.Args
+import DdsProofs.Props.C05
 /-!
 # C13 — a kept call's signature depends on the argument binding, not on its spelling
 
@@ -47,6 +48,48 @@ theorem sig_injective (body : Option Sg) (deps : List (String × Sg)) (subs : Li
          buildReturnSig body ⟨c₂.map (fun p => (p.1, some p.2)), i₂⟩ deps subs ed ev) :
     c₁ = c₂ :=
   buildReturnSig_args_inj body deps subs ed ev c₁ c₂ i₁ i₂ hnames hnd h
+
+/-- **a `*args` parameter of a call seen in source** (outside `plainParams`; since the `fix:` commit for `*args`): the hash
+recorded for the parameter determines, up to the canonical form of C05, the tuple of ALL the remaining positional literals -
+two calls that bind different tuples to `*rest` do not share the hash of that parameter -/
+theorem varpos_binding_injective (m : Nat) (p : Param) (hk : p.kind = .varPos) (idx : Nat)
+    (args₁ args₂ : List PyVal) (kw₁ kw₂ : List (String × AstArg)) (h : Sg)
+    (h₁ : argAst m (constArgs args₁) kw₁ idx p = .ok (some h))
+    (h₂ : argAst m (constArgs args₂) kw₂ idx p = .ok (some h)) :
+    canonKF (.list (args₁.drop idx)) = canonKF (.list (args₂.drop idx)) := by
+  have key : ∀ (args : List PyVal) (kw : List (String × AstArg)),
+      argAst m (constArgs args) kw idx p = .ok (some h) → ddsHash m (.list (args.drop idx)) = .ok h := by
+    intro args kw e
+    unfold argAst at e
+    simp only [hk, ne_eq, reduceCtorEq, not_false_eq_true, not_true_eq_false, and_false, if_false, if_true] at e
+    have hc : allConst ((constArgs args).drop idx) = some (args.drop idx) := by
+      unfold constArgs
+      rw [← List.map_drop]
+      generalize args.drop idx = l
+      induction l with
+      | nil => rfl
+      | cons a l ih => simp [allConst, ih]
+    rw [hc] at e
+    simp only at e
+    cases hd : ddsHash m (.list (args.drop idx)) with
+    | error er =>
+      rw [hd] at e
+      cases e
+    | ok g =>
+      rw [hd] at e
+      have : g = h := by
+        have e' : (Except.ok (some g) : Except ArgErr (Option Sg)) = .ok (some h) := e
+        injection e' with e''
+        injection e''
+      rw [this]
+  exact Dds.C05.inj_partial m _ _ h (key args₁ kw₁ h₁) (key args₂ kw₂ h₂)
+
+/-- non-vacuity: `def g(a, *rest)` called as `g(1, 2, 3)` and as `g(1, 2, 4)`: the parameter `rest` gets two different hashes -/
+example :
+    let p : Param := { name := "rest", kind := .varPos }
+    (argAst 10 (constArgs [.int 1, .int 2, .int 3]) [] 1 p).toOption.isSome = true ∧
+    argAst 10 (constArgs [.int 1, .int 2, .int 3]) [] 1 p ≠ argAst 10 (constArgs [.int 1, .int 2, .int 4]) [] 1 p := by
+  refine ⟨by decide +kernel, by decide +kernel⟩
 
 /-- non-vacuity: three spellings of one binding of `def f(x, y=0)`, with a concrete signature -/
 example :
